@@ -11,6 +11,7 @@ mod cases;
 mod queries;
 mod validity;
 mod schemas;
+mod printing;
 
 use std::collections::HashMap;
 
@@ -60,6 +61,7 @@ fn main() {
         "queries" => queries::main(&args),
         "validity" => validity::main(&args),
         "schemas" => schemas::main(&args),
+        "printing" => printing::main(&args),
         "validity-trace" => validity::trace_main(&args),
         other => {
             eprintln!("unknown command {}", other);
